@@ -43,6 +43,10 @@ func init() {
 		p.env = func() {
 			w.oldPassword[st.User] = w.dirsim.Password[st.User]
 			w.dirsim.Password[st.User] = fmt.Sprintf("%s-pw-%d", st.User, st.N+2)
+			if st.A == "long" {
+				// a pass phrase: 90 characters, the distinguishing ones at the end
+				w.dirsim.Password[st.User] = fmt.Sprintf("%s-%s-%d", st.User, strings.Repeat("correct horse battery staple ", 3)[:80], st.N+2)
+			}
 		}
 		return p
 	}
@@ -189,6 +193,17 @@ func ldapSetup(w *vfWorld) {
 		if len(ctx.pwChecks) > 0 {
 			return
 		}
+		// ... although one of the configured servers is up: "when at least one server answers its verdict is final" -
+		// a reachable server that is never asked cannot answer
+		for name, srv := range w.dirsim.Servers {
+			var idx int
+			fmt.Sscanf(name, "ldap%d.sim", &idx)
+			if idx >= 1 && idx <= w.cfg.LDAPServers && srv.Mode == "up" && accepted && w.dirsim.Password[user] != pw {
+				w.violate("C07", "accepted-against-directory", "accepted-against-directory:reachable-server-not-asked",
+					fmt.Sprintf("login of %s accepted from the cache with a password the directory rejects, while %s was up and was never asked", user, name))
+				return
+			}
+		}
 		w.probe("login-no-server-answered")
 		file := profileDBFilename
 		if w.stalled {
@@ -237,7 +252,7 @@ func ldapSetup(w *vfWorld) {
 }
 
 func genLdapPlan(r *rand.Rand, tier string) *vfPlan {
-	p := &vfPlan{Cfg: vfCfg{TOTP: true, VIP: true, PwBackend: "ldap", LDAPServers: 1 + r.IntN(3), NoPwCache: chance(r, 0.12),
+	p := &vfPlan{Cfg: vfCfg{TOTP: true, VIP: true, PwBackend: "ldap", LDAPServers: pick(r, []int{1, 2, 3, 3}), NoPwCache: chance(r, 0.12),
 		CertBackends: []string{"U2F", "TOTP"}, WebUIBackends: []string{"U2F", "TOTP"}, DisableNorm: chance(r, 0.15)}}
 	add := func(s vfStep) { p.Steps = append(p.Steps, s) }
 	users := []string{"alice", "bob", "mallory"}
@@ -259,12 +274,33 @@ func genLdapPlan(r *rand.Rand, tier string) *vfPlan {
 				name = strings.ToUpper(u[:1]) + u[1:]
 			}
 			add(vfStep{Op: "login", Sess: pick(r, vfSessNames), User: name, A: pick(r, []string{"", "", "", "old", "wrong", "of:" + pick(r, users)}), B: pick(r, []string{"form", "form", "basic"})})
-		case x < 48:
+		case x < 46:
 			add(vfStep{Op: "dir_setpw", User: u, N: int64(i)})
+		case x < 48:
+			// a long pass phrase is confirmed and cached; during an outage one that differs only near its end is tried
+			add(vfStep{Op: "dir_setpw", User: u, N: int64(i), A: "long"})
+			add(vfStep{Op: "login", Sess: pick(r, vfSessNames), User: u, B: "form"})
+			allDown(pick(r, []string{"down", "refuse", "error"}))
+			add(vfStep{Op: "login", Sess: pick(r, vfSessNames), User: u, A: "twin", B: "form"})
 		case x < 58:
 			add(vfStep{Op: "dir_server", N: int64(1 + r.IntN(p.Cfg.LDAPServers)), A: pick(r, []string{"up", "down", "refuse", "error", "slow"})})
-		case x < 66:
+		case x < 63:
 			allDown(pick(r, []string{"down", "refuse", "error"}))
+		case x < 66 && p.Cfg.LDAPServers >= 2 && chance(r, 0.6):
+			// a cached password goes stale while only the LAST configured server is still reachable
+			add(vfStep{Op: "login", Sess: pick(r, vfSessNames), User: u, B: "form"})
+			add(vfStep{Op: "dir_setpw", User: u, N: int64(i)})
+			for k := 1; k < p.Cfg.LDAPServers; k++ {
+				add(vfStep{Op: "dir_server", N: int64(k), A: pick(r, []string{"down", "refuse", "error"})})
+			}
+			add(vfStep{Op: "dir_server", N: int64(p.Cfg.LDAPServers), A: "up"})
+			add(vfStep{Op: "login", Sess: pick(r, vfSessNames), User: u, A: "old", B: pick(r, []string{"form", "basic"})})
+		case x < 66:
+			// all but the last server away
+			for k := 1; k < p.Cfg.LDAPServers; k++ {
+				add(vfStep{Op: "dir_server", N: int64(k), A: pick(r, []string{"down", "refuse", "error"})})
+			}
+			add(vfStep{Op: "dir_server", N: int64(p.Cfg.LDAPServers), A: "up"})
 		case x < 72:
 			allDown("up")
 		case x < 80:
